@@ -7,6 +7,7 @@ use std::time::{Duration, Instant};
 pub mod chan;
 pub mod reg;
 pub mod iter;
+pub mod c03;
 
 #[derive(Clone, Copy, PartialEq, Debug)]
 pub enum Tier {
@@ -30,6 +31,7 @@ pub fn scenarios(prop: &str, tier: Tier) -> Option<Vec<Item>> {
         "C06" | "C07" | "C08" => Some(chan::scenarios(prop, tier)),
         "C01" | "C02" | "C04" | "C18" => Some(reg::scenarios(prop, tier)),
         "C09" | "C10" | "C11" => Some(iter::scenarios(prop, tier)),
+        "C03" => Some(c03::scenarios(tier)),
         _ => None,
     }
 }
